@@ -1,5 +1,5 @@
 --------------------------- MODULE WsgiWrap_Trace ---------------------------
-(* Record validation for wrapper order: {tid, outer:[types], subs:[[types]], observed:[types]}     *)
+(* Record validation for wrapper order: {tid, outer:[types], subs:[[types]], nested, observed:[types]} *)
 (* recorded from a real application tree; accepted iff OrderOK(outer, subs, observed).             *)
 EXTENDS WsgiWrap, IOUtils
 Traces == ndJsonDeserialize(IOEnv.TRACE_FILE)
@@ -7,5 +7,6 @@ VARIABLES tid
 tvars == <<wvars, tid>>
 TInit == tid \in 1..Len(Traces) /\ outerL = <<>> /\ subsL = <<>>
 TSpec == TInit /\ [][UNCHANGED tvars]_tvars
-Accept == LET r == Traces[tid] IN OrderOK(r.outer, r.subs, r.observed) => PrintT(<<"ACCEPT", r.tid>>)
+Accept == LET r == Traces[tid] IN (IF r.nested THEN OrderOKChain(r.outer, r.subs, r.observed) ELSE OrderOK(r.outer, r.subs, r.observed))
+                                  => PrintT(<<"ACCEPT", r.tid>>)
 =============================================================================
